@@ -163,7 +163,9 @@ def concretise(hist, payload=default_payload, skin=None, k0=0):
                 np_ += cc in ("plus", "zero")
                 j += 1
             start = skin.get("start", 10) + 100 * k
-            t = f"@@ -{start},{nm} +{start + 3},{np_} @@ fragZ{k}Z"
+            fr = skin.get("frag", "std")
+            frag = {"std": f" fragZ{k}Z", "none": "", "numbers": f" fragZ{k}Z = -1; x +5,2 @@ y", "space": " "}[fr]
+            t = f"@@ -{start},{nm} +{start + 3},{np_} @@{frag}"
         elif c == "minus":
             t = "-" + payload(k, c)
         elif c == "plus":
@@ -397,7 +399,10 @@ def parse_unified_numbers(row: bytes):
     return {"k": _tok(cells), "nm": nm, "np": np_}
 
 
-def parse_sbs_row(row: bytes):
+DEFAULT_SYMS = {"left": "↵", "right": "↴", "prefix": "…", "trunc": "→"}
+
+
+def parse_sbs_row(row: bytes, syms=None):
     """Side-by-side row with line numbers on: split at the first right-gutter cell."""
     cells, width = kinded_cells(row)
     split = next((i for i, c in enumerate(cells) if c[1] == "lnRight"), None)
@@ -411,14 +416,15 @@ def parse_sbs_row(row: bytes):
     def panel(cs):
         """code text of a panel without padding and wrap machinery: (text, wrapped?, truncated?)"""
         t = "".join(g for g, kd, w, c in cs if kd not in LN_KINDS and kd != "plain")
-        m = re.match(r"^ *…", t)
+        sy = syms or DEFAULT_SYMS
+        m = re.match(r"^ *" + re.escape(sy["prefix"]), t)
         ralign = bool(m)
         if m:
             t = t[m.end():]
         wrapped = truncated = False
-        if t.endswith("↵") or t.endswith("↴"):
+        if t.endswith(sy["left"]) or t.endswith(sy["right"]):
             wrapped, t = True, t[:-1]
-        elif t.endswith("→"):
+        elif t.endswith(sy["trunc"]):
             truncated, t = True, t[:-1]
         return t, wrapped, truncated, ralign
     lp, rp = panel(left), panel(right)
